@@ -60,3 +60,209 @@ Theorem C02_implicit_unit : forall cc d,
   plain d -> d_fmt d = None -> fl (d_fields d) = [] -> d_generate_body cc d = ROk (BWriteStr (d_name d)).
 Proof. exact body_implicit_unit. Qed.
 Print Assumptions C02_implicit_unit.
+
+(** ---- coverage-growth round: pinned below ---- *)
+From Verif Require Import Fmt.Front C02.Handover C02.FrontProofs C02.Bindings.
+
+(** under EVERY combination of attributes a struct's / variant's own attribute reaches the expansion unchanged: handed to write! verbatim with the re-bindings, or turned into the delegation, or handed to format_args! verbatim as the text bound to [_variant] *)
+Theorem C02_own_attr_carried :
+  forall (cc : CharClass) (d : dexpansion) (a : fmt_attr) (b : body),
+  d_fmt d = Some a -> d_generate_body cc d = ROk b -> carries cc (d_fields d) b a.
+Proof. exact Handover.own_attr_carried. Qed.
+Print Assumptions C02_own_attr_carried.
+
+(** the enum-level attribute, when it governs a variant, is carried the same way (as the body, or as the body of the [_variant] match) *)
+Theorem C02_shared_attr_carried :
+  forall (cc : CharClass) (d : dexpansion) (sa : fmt_attr) (b : body),
+  d_shared d = Some sa ->
+  d_generate_body cc d = ROk b ->
+  Proofs.bare_same_trait cc sa (d_trait d) = false ->
+  Proofs.mentions_variant cc sa = true \/ d_fmt d = None -> carries_outer cc (d_fields d) b sa.
+Proof. exact Handover.shared_attr_carried. Qed.
+Print Assumptions C02_shared_attr_carried.
+
+(** a delegation passes the field binding itself only for a field named in the literal, or under a trait for which &T prints like T *)
+Theorem C02_delegate_field_indistinguishable :
+  forall (cc : CharClass) (a : fmt_attr) (fs : fields) (f : ident) (tr : trait),
+  transparent_call_on_fields cc a fs = Some (TField f, tr) -> args a = [] \/ tr <> TrPointer.
+Proof. exact Handover.delegate_field_indistinguishable. Qed.
+Print Assumptions C02_delegate_field_indistinguishable.
+
+(** ... so Trait::fmt(field, f) prints what format! prints for the documented binding (field itself in the literal, reference in an argument) *)
+Theorem C02_delegation_prints_documented :
+  forall (cc : CharClass) (value out fspec : Type) (render : trait -> value -> fspec -> out)
+  (ref : value -> value),
+  (forall (tr : trait) (v : value) (sp : fspec), tr <> TrPointer -> render tr (ref v) sp = render tr v sp) ->
+  forall (a : fmt_attr) (fs : fields) (f : ident) (tr : trait) (v : value) (sp : fspec),
+  transparent_call_on_fields cc a fs = Some (TField f, tr) ->
+  render tr v sp = render tr (documented_binding value ref a v) sp.
+Proof. exact Handover.delegation_prints_documented. Qed.
+Print Assumptions C02_delegation_prints_documented.
+
+(** Debug without struct-/variant-level format: one builder entry per non-skipped field in order, field-level formats handed to format_args! verbatim with re-bindings computed over ALL fields, finish_non_exhaustive iff a field is skipped *)
+Theorem C02_debug_body_default :
+  forall (cc : CharClass) (g : gexpansion),
+  g_fmt g = None ->
+  g_generate_body cc g =
+  ROk
+  match fk (g_fields g) with
+  | Named =>
+  GStruct (g_name g) (debug_chain cc (g_fields g) 0 (fl (g_fields g)))
+  (forallb (fun f : field => match fattr f with
+  | FSkip => false
+  | _ => true
+  end) (fl (g_fields g)))
+  | Unnamed =>
+  GTuple (g_name g) (debug_chain cc (g_fields g) 0 (fl (g_fields g)))
+  (forallb (fun f : field => match fattr f with
+  | FSkip => false
+  | _ => true
+  end) (fl (g_fields g)))
+  | Unit => GUnit (g_name g)
+  end.
+Proof. exact Handover.debug_body_default. Qed.
+Print Assumptions C02_debug_body_default.
+
+(** whole-item statement: a unit struct prints its un-raw'd name converted by its rename_all (casing is an uninterpreted function) *)
+Theorem C02_unit_struct_name :
+  forall (cc : CharClass) (to_case : casing -> str -> str) (tr : trait) (it : ritem)
+  (a : dattrs) (fs : rfields),
+  d_parse_attrs (attr_name_of tr) (ri_attrs it) = ROk a ->
+  ri_data it = RStruct fs ->
+  rfl fs = [] ->
+  ca_fmt (da_common a) = None ->
+  exists bs : list bound,
+  d_expand_item cc to_case tr it =
+  ROk ([(BWriteStr (unit_name to_case (da_rename a) (ri_ident it)), bs)], bs).
+Proof. exact FrontProofs.unit_struct_name. Qed.
+Print Assumptions C02_unit_struct_name.
+
+(** a variant's name is converted by its own rename_all, else by the enum's *)
+Theorem C02_variant_name :
+  forall (to_case : casing -> str -> str) (container : dattrs) (params : list ident)
+  (tr : trait) (v : rvariant) (a : dattrs),
+  d_parse_attrs (attr_name_of tr) (rv_attrs v) = ROk a ->
+  exists d : dexpansion,
+  d_variant_expansion to_case container params tr v = ROk d /\
+  d_name d =
+  unit_name to_case match da_rename a with
+  | Some k => Some k
+  | None => da_rename container
+  end (rv_ident v) /\
+  d_shared d = ca_fmt (da_common container) /\
+  d_fmt d = ca_fmt (da_common a) /\
+  d_user_bounds d = ca_bounds (da_common a) /\ d_fields d = plain_fields (rv_fields v) /\ d_trait d = tr.
+Proof. exact FrontProofs.variant_name. Qed.
+Print Assumptions C02_variant_name.
+
+(** a unit variant of a Display enum without any format prints that name *)
+Theorem C02_unit_variant_prints :
+  forall (cc : CharClass) (to_case : casing -> str -> str) (container : dattrs) (params : list ident)
+  (v : rvariant) (a : dattrs),
+  d_parse_attrs (attr_name_of TrDisplay) (rv_attrs v) = ROk a ->
+  ca_fmt (da_common container) = None ->
+  ca_fmt (da_common a) = None ->
+  rfl (rv_fields v) = [] ->
+  exists bs : list bound,
+  d_variant_result cc to_case container params TrDisplay v =
+  ROk
+  (BWriteStr
+  (unit_name to_case match da_rename a with
+  | Some k => Some k
+  | None => da_rename container
+  end (rv_ident v)), bs).
+Proof. exact FrontProofs.unit_variant_prints. Qed.
+Print Assumptions C02_unit_variant_prints.
+
+(** the attribute-name table is injective *)
+Theorem C02_attr_name_of_inj :
+  forall t1 t2 : trait, attr_name_of t1 = attr_name_of t2 -> t1 = t2.
+Proof. exact FrontProofs.attr_name_of_inj. Qed.
+Print Assumptions C02_attr_name_of_inj.
+
+(** ... so attributes written for other derives never change an expansion *)
+Theorem C02_display_ignores_foreign_attrs :
+  forall (cc : CharClass) (to_case : casing -> str -> str) (tr : trait) (it : ritem),
+  d_expand_item cc to_case tr (strip_item (attr_name_of tr) it) = d_expand_item cc to_case tr it.
+Proof. exact FrontProofs.display_ignores_foreign_attrs. Qed.
+Print Assumptions C02_display_ignores_foreign_attrs.
+
+(** several attributes on one item: at most one format, one rename_all; all bound(...) predicates kept in order; rename_all survives bound(...) and format attributes written after it *)
+Theorem C02_parse_attrs_sound :
+  forall (name : str) (l : list raw_attr) (a : dattrs),
+  d_parse_attrs name l = ROk a ->
+  let cs := attrs_named name l in
+  Forall d_content_ok cs /\
+  (length (c_fmts cs) <= 1)%nat /\
+  (length (c_renames cs) <= 1)%nat /\
+  ca_fmt (da_common a) = hd_error (c_fmts cs) /\
+  ca_bounds (da_common a) = c_preds cs /\ da_rename a = the_rename cs.
+Proof. exact FrontProofs.d_parse_attrs_sound. Qed.
+Print Assumptions C02_parse_attrs_sound.
+
+(** a second format / rename_all, a legacy spelling (fmt = .., bound = ".."), an unknown casing or any other content is a diagnostic *)
+Theorem C02_parse_attrs_rejects :
+  forall (name : str) (l : list raw_attr),
+  (exists c : raw_content, In c (attrs_named name l) /\ ~ d_content_ok c) \/
+  (length (c_fmts (attrs_named name l)) >= 2)%nat \/ (length (c_renames (attrs_named name l)) >= 2)%nat ->
+  exists e : N, d_parse_attrs name l = RErr e.
+Proof. exact FrontProofs.d_parse_attrs_rejects. Qed.
+Print Assumptions C02_parse_attrs_rejects.
+
+(** Debug field attributes: at most one of skip / format *)
+Theorem C02_debug_field_attrs_single :
+  forall (l : list raw_attr) (fa : field_attr),
+  f_parse_attrs l = ROk fa ->
+  (length (attrs_named Lits.n_debug l) <= 1)%nat /\
+  match attrs_named Lits.n_debug l with
+  | [] => fa = FNone
+  | [RCFmt a] => fa = FFmt a
+  | RCFmt a :: _ :: _ => False
+  | [RCSkip] => fa = FSkip
+  | _ => False
+  end.
+Proof. exact FrontProofs.debug_field_attrs_single. Qed.
+Print Assumptions C02_debug_field_attrs_single.
+
+(** every field of a struct is bound, in order, under the names [fmt_args_idents] gives (the field's identifier, or [_k]) *)
+Theorem C02_struct_lets_binders :
+  forall fs : fields, map fst (struct_lets fs) = fmt_args_idents fs.
+Proof. exact Bindings.struct_lets_binders. Qed.
+Print Assumptions C02_struct_lets_binders.
+
+(** ... the k-th binding being a reference to the k-th field: [let x = &self.x] / [let _k = &self.k] *)
+Theorem C02_struct_lets_nth :
+  forall (fs : fields) (k : nat) (f : field),
+  nth_error (fl fs) k = Some f ->
+  nth_error (struct_lets fs) k =
+  Some
+  match fname f with
+  | Some n => (n, MNamed n)
+  | None => (positional_ident (N.of_nat k), MUnnamed (N.of_nat k))
+  end.
+Proof. exact Bindings.struct_lets_nth. Qed.
+Print Assumptions C02_struct_lets_nth.
+
+(** the pattern of a match arm binds the same names (by reference, the scrutinee being [self]) *)
+Theorem C02_variant_matcher_binders :
+  forall (v : ident) (fs : fields),
+  (fk fs = Unit -> fl fs = []) -> matcher_binders (variant_matcher v fs) = fmt_args_idents fs.
+Proof. exact Bindings.variant_matcher_binders. Qed.
+Print Assumptions C02_variant_matcher_binders.
+
+(** in a named struct / variant the binders are the fields' own identifiers, so the shorthand pattern binds each to its field *)
+Theorem C02_named_binders_are_field_names :
+  forall fs : fields,
+  (forall f : field, In f (fl fs) -> fname f <> None) -> map Some (fmt_args_idents fs) = map fname (fl fs).
+Proof. exact Bindings.named_binders_are_field_names. Qed.
+Print Assumptions C02_named_binders_are_field_names.
+
+(** conversely nothing else is refused: formats, bound(...) and valid rename_all attributes with at most one format and one rename_all are always accepted (so the acceptance condition is an iff) *)
+Theorem C02_parse_attrs_complete :
+  forall (name : str) (l : list raw_attr),
+  let cs := attrs_named name l in
+  Forall d_content_ok cs ->
+  (length (c_fmts cs) <= 1)%nat ->
+  (length (c_renames cs) <= 1)%nat -> exists a : dattrs, d_parse_attrs name l = ROk a.
+Proof. exact FrontProofs.d_parse_attrs_complete. Qed.
+Print Assumptions C02_parse_attrs_complete.
